@@ -26,6 +26,7 @@ func init() {
 	register(&Prop{
 		ID: "C20",
 		Rule: "every endpoint (26 exported Datasource methods) x ids {0,1,boundary,random} / id lists of 1..6 / bboxes x option sets (none, At, Limit in and out of range, MaxDaysClosed, combinations) x 3 base URLs x limiter {absent, present, failing} x statuses {200,404,403,410,414, every other code 100..599 sampled} x bodies with 0/1/many elements plus distractors; " +
+			"note search texts with + & = ; # %; queries compared by decoded key/value pairs; " +
 			"non-trivial = a request was issued; distinct = distinct op line",
 		Gen:   c20Gen,
 		Exec:  c20Exec,
